@@ -17,6 +17,7 @@ import (
 	"github.com/freeconf/yang/nodeutil"
 	"github.com/freeconf/yang/parser"
 	"github.com/freeconf/yang/source"
+	"github.com/freeconf/yang/val"
 	"verif/internal/eng"
 	"verif/internal/model"
 	"verif/internal/store"
@@ -215,6 +216,15 @@ func c20Body(op string, m *meta.Module, out *string) func(yield func()) {
 				res.WriteString(s)
 			}
 			fmt.Fprintf(&res, " err=%v", err)
+			// nodes that are looked up by name inside the cases of a choice, present and absent
+			for _, path := range []string{"c/ca1", "c/cb1", "c/cb1/x", "c/nope"} {
+				sel, err := b.Root().Find(path)
+				var v val.Value
+				if err == nil && sel != nil && meta.IsLeaf(sel.Meta()) {
+					v, err = sel.Get()
+				}
+				fmt.Fprintf(&res, " %s:%v,%v,%v", path, sel != nil, v, err)
+			}
 		case "delete":
 			r, b := newStore()
 			sel, err := b.Root().Find("l=a/n=1")
